@@ -431,6 +431,84 @@ pub fn run_migrations(stride: usize, out: &mut dyn Write) {
             }
         }
     }
+
+    // several migrating legacy properties on ONE instance (MeshPart: MeshId, TextureID and the inherited BrickColor;
+    // WrapLayer: ReferenceMeshId and the inherited CageMeshId), with the explicit new property present for some and
+    // absent for the others: each migration is decided on its own.  One event per descriptor, same path results.
+    let mut concrete: Vec<&str> = db.classes.keys().map(|k| k.as_ref()).collect();
+    concrete.sort();
+    for cname in concrete {
+        if cname == "BasePart" || cname == "BaseWrap" {
+            continue;
+        }
+        // migrating descriptors along the superclass chain, one per target
+        let mut migs: Vec<(String, String, String)> = Vec::new(); // (legacy name, target, op)
+        let mut cur = db.classes.get(cname);
+        while let Some(c) = cur {
+            let mut names: Vec<&str> = c.properties.keys().map(|k| k.as_ref()).collect();
+            names.sort();
+            for pname in names {
+                if let PropertyKind::Canonical { serialization: PropertySerialization::Migrate(m) } = &c.properties[pname].kind {
+                    if !migs.iter().any(|x| x.1 == m.new_property_name) {
+                        let op = format!("{:?}", m).split("migration: ").nth(1).unwrap_or("").trim_end_matches(" }").to_string();
+                        migs.push((pname.to_string(), m.new_property_name.clone(), op));
+                    }
+                }
+            }
+            cur = c.superclass.as_ref().and_then(|s| db.classes.get(s.as_ref()));
+        }
+        let own = db.classes[cname].properties.values().any(|p| matches!(&p.kind, PropertyKind::Canonical { serialization: PropertySerialization::Migrate(_) }));
+        if migs.len() < 2 || !own {
+            continue;
+        }
+        let usable = |op: &str, pname: &str| -> Vec<Variant> {
+            legacy_values(op, db)
+                .into_iter()
+                .filter(|v| {
+                    let mut probe = WeakDom::new(InstanceBuilder::new("DataModel"));
+                    let root = probe.root_ref();
+                    let r = probe.insert(root, InstanceBuilder::new(cname).with_property(pname, v.clone()));
+                    write_bin(&probe, &[r], CompressionType::None).is_ok() && write_xml(&probe, &[r], "IgnoreUnknown").is_ok()
+                })
+                .collect()
+        };
+        for a in 0..migs.len() {
+            for b in 0..migs.len() {
+                if a == b {
+                    continue;
+                }
+                let (va, vb) = (usable(&migs[a].2, &migs[a].0), usable(&migs[b].2, &migs[b].0));
+                if va.is_empty() || vb.is_empty() {
+                    continue;
+                }
+                for mask in 0..4u8 {
+                    let mut bld = InstanceBuilder::new(cname)
+                        .with_name("MM")
+                        .with_property(migs[a].0.as_str(), va[va.len() / 2].clone())
+                        .with_property(migs[b].0.as_str(), vb[vb.len() - 1].clone());
+                    if mask & 1 != 0 {
+                        bld = bld.with_property(migs[a].1.as_str(), explicit_value(&migs[a].2));
+                    }
+                    if mask & 2 != 0 {
+                        bld = bld.with_property(migs[b].1.as_str(), explicit_value(&migs[b].2));
+                    }
+                    let mut dom = WeakDom::new(InstanceBuilder::new("DataModel"));
+                    let root = dom.root_ref();
+                    let r = dom.insert(root, bld);
+                    let roots = [r];
+                    let paths = mig_paths(&dom, &roots, &nodb, true);
+                    for (which, m) in [(0u8, &migs[a]), (1u8, &migs[b])] {
+                        let explicit = (mask >> which) & 1;
+                        let ev = json!({"ep": format!("mig:{}.{}+{}:multi{}:{}", cname, migs[a].0, migs[b].0, mask, which), "op": "mig_case",
+                                        "class": cname, "legacy": m.0, "target": m.1, "migop": m.2,
+                                        "explicit": explicit, "before": pforest(&dom, &roots), "paths": paths.clone()});
+                        serde_json::to_writer(&mut *out, &ev).unwrap();
+                        out.write_all(b"\n").unwrap();
+                    }
+                }
+            }
+        }
+    }
 }
 
 /// Huge exact-identity forests through both codecs, logged by fingerprint (see bincase::run_huge).
